@@ -117,6 +117,9 @@ fn value_from_view(view: &SafeTensorView) -> io::Result<Value> {
         )
     })?;
     let shape = view.shape();
+    if crate::checked_element_count(shape).is_none() {
+        return Err(to_io_error(SafeTensorError::ValidationOverflow));
+    }
     let bytes = view.data();
     let value = dispatch_data_type!(data_type, T => {
         let data = <T as SafeElement>::from_le_bytes(bytes);
@@ -381,6 +384,22 @@ mod tests {
 
         assert_eq!(err.kind(), io::ErrorKind::InvalidInput);
         assert!(buffer.is_empty());
+    }
+
+    #[test]
+    fn test_read_safetensors_rejects_shapes_that_overflow() {
+        // Tensor with zero elements, but a shape for which the strides
+        // overflow.
+        let header =
+            r#"{"a":{"dtype":"I32","shape":[0,8589934592,8589934592],"data_offsets":[0,0]}}"#;
+        let mut bytes = (header.len() as u64).to_le_bytes().to_vec();
+        bytes.extend_from_slice(header.as_bytes());
+
+        let err = read(&bytes[..]).unwrap_err();
+        assert_eq!(err.kind(), io::ErrorKind::InvalidData);
+
+        let err = read_array(&bytes[..], "a").unwrap_err();
+        assert_eq!(err.kind(), io::ErrorKind::InvalidData);
     }
 
     #[test]
